@@ -6,7 +6,7 @@
 From Coq Require Import String List Arith ZArith QArith Qabs Qround Bool Lia.
 From PGA Require Import Sampler.Cst Sampler.CstProofs.
 From PGAgen Require Import ConstGen.
-From PGAprops Require Import CstGen.
+From PGAprops Require Import CstGen ShapesGen.
 Import ListNotations.
 Local Open Scope Q_scope.
 
@@ -70,6 +70,19 @@ Example C19_example :
   neg_annotator 1 [mkCU 0 10 0; mkCU 20 30 1] [CChoice 1; CRandom (1#2); CRandom (1#3)] = Some ([mkCU 20 30 1], []).
 Proof. vm_compute. split; reflexivity. Qed.
 
+(* a unit that cannot be split (a piece would be too short for the container) is left as it was - among pairwise distinct units its annotator keeps
+   duration and count; the code as it was re-added the unit on top of the first piece (refuted; repaired by a fix commit) *)
+Theorem C19_unsplittable_unit_left_unchanged prec us st r st' i cut u :
+  st = CRandint i :: CUniform cut :: st' -> nth_error us i = Some u -> split_one prec us st = Some (r, st') ->
+  addable prec (mkCU cut (ce u) (cc u)) = false \/ addable prec (mkCU (cs u) cut (cc u)) = false ->
+  ~ InE (mkCU cut (ce u) (cc u)) (cdel u us) -> ~ InE u (cdel u us) ->
+  total_duration r == total_duration us /\ length r = length us.
+Proof. exact (split_one_unsplittable_keeps prec us st r st' i cut u). Qed.
+Theorem C19_original_split_counts_duration_twice :
+  exists prec us st r st', split_one_gen false prec us st = Some (r, st') /\ ~ total_duration r == total_duration us /\
+                          split_one_gen true prec us st = Some (us, st').
+Proof. exact split_original_counts_duration_twice. Qed.
+
 (* ---------------------------------------------------------------------------------------------------------------------------------
    Tie to the source: the arithmetic of cst.py as written IS what the model applies (shift_draw's candidate ends and acceptance, the removal
    test, the added segment, the two pieces of a split and the interval its cut is drawn from, the order of the five perturbations), and with
@@ -118,3 +131,22 @@ Proof.
   - unfold Qltb. apply negb_false_iff. apply Qle_bool_iff. exact Hx.
   - ring.
 Qed.
+
+(* the statements around the arithmetic: what is removed / added and what is drawn, per perturbation (normalised source text) *)
+Theorem C19_src_shapes :
+  shift_shape_src = ["continuum.remove(annotator, unit)"; "continuum.add(annotator, Segment(start_seg, end_seg), unit.annotation)"; "np.random.uniform(-1, 1)"]%string /\
+  false_neg_shape_src = ["security = np.random.choice(continuum._annotations[annotator])"; "if len(continuum._annotations[annotator]) == 0: continuum.add(annotator, security.segment, security.annotation)"]%string /\
+  false_pos_shape_src = ["category = np.random.choice(category_weights.keys(), p=category_weights.values())"; "center = np.random.uniform(bounds_inf, bounds_sup)"; "avg_dur = np.average([unit.segment.end - unit.segment.start for unit in ref_units])"; "var_dur = np.std([unit.segment.end - unit.segment.start for unit in ref_units])"; "bounds_inf, bounds_sup = (self._reference_continuum.bound_inf, self._reference_continuum.bound_sup)"]%string /\
+  cat_shape_src = ["np.random.choice(categories, p=prob_matrix[category_weights.index(unit.annotation)])"; "continuum.remove(annotator, unit)"; "continuum.add(annotator, Segment(unit.segment.start, unit.segment.end), new_category)"]%string /\
+  split_shape_src = ["to_split = units.pop(numpy.random.randint(0, len(units)))"; "except ValueError: units.discard(Unit(Segment(cut, to_split.segment.end), to_split.annotation)); continuum.add(annotator, to_split.segment, to_split.annotation)"]%string.
+Proof. repeat split. Qed.
+
+Fixpoint lookup_src (k : string) (l : list (string * string)) : option string :=
+  match l with [] => None | (a, b) :: r => if String.eqb k a then Some b else lookup_src k r end.
+(* the reference's statistics the tool reads *)
+Theorem C19_src_reference_statistics :
+  lookup_src "property avg_length_unit" continuum_src = Some "(self) return sum((unit.segment.duration for _, unit in self)) / self.num_units"%string /\
+  lookup_src "property avg_num_annotations_per_annotator" continuum_src = Some "(self) return self.num_units / self.num_annotators"%string /\
+  lookup_src "property category_weights" continuum_src = Some "(self) weights = SortedDict(); nb_units = 0; for (_, unit) in self: [nb_units += 1; if unit.annotation not in weights: [weights[unit.annotation] = 1] else: [weights[unit.annotation] += 1]]; for annotation in weights.keys(): [weights[annotation] /= nb_units]; return weights"%string /\
+  lookup_src "property bounds" continuum_src = Some "(self) return (self.bound_inf, self.bound_sup)"%string.
+Proof. repeat split. Qed.
